@@ -6,14 +6,14 @@ from framework import Task
 
 HERE = os.path.dirname(os.path.abspath(__file__))
 OPS = ['writeBytes(n)', 'writeContainer(k)', 'read(n)', 'seekg(off)', 'nextLogContainer', 'dropOldData', 'setFileSize',
-       'setDefaultLogContainerSize']
+       'setDefaultLogContainerSize', 'setBufferSize']
 
 
 def tasks(tier, seed):
     steps = 3 if tier == 'quick' else 4
     src = open(os.path.join(HERE, 'harness', 'c15_stream.cpp')).read()
     ts = []
-    for first in range(8):
+    for first in range(9):
         txt = '#define STEPS %d\n#define FIRST_OP %d\n' % (steps, first) + src
         ts.append(Task('stream.first_%s' % OPS[first].split('(')[0], txt, 'h_stream', None,
                        opts=dict(max_paths=400000, max_wall=900 if tier == 'quick' else 3400, validate=False,
@@ -28,7 +28,8 @@ def tasks(tier, seed):
         explanation='The real UncompressedFile methods (with the real libstdc++ std::list / shared_ptr / vector header code) run '
                     'symbolically; data bytes are symbolic, structural choices (operation, chunk size, container size) are '
                     'enumerated completely; z3 decides equality of every byte read with the reference byte queue and of '
-                    'gcount/tellg/tellp/good/eof/fileSize; would-block verdicts come from the real wait predicates (probe mode).',
+                    'gcount/tellg/tellp/good/eof/fileSize; would-block verdicts come from the real wait predicates (probe mode); '
+                    'every operation that makes a waiter\'s predicate true must notify its condition variable (no lost wake-up).',
         trusted_base=CC.TRUSTED + ['engine/models.py: mutex / condition_variable (probe mode), std::list node hooks'],
         bounds='histories of length 3 (quick) / 4 (thorough) from the initial state; container sizes 1..3; chunks <= 3 bytes',
         assumptions=['seeking back into data already released by dropOldData is outside the claim',
